@@ -111,17 +111,17 @@ class Check:
     # ----------------------------------------------------------------------------------
     def finish(self, results, describe=None, extra_cov=None):
         ok_jobs = []
-        # counterexample extraction for all FAILED harnesses, in parallel (each is a second Kani run)
-        failed = [r for r in results if r.status == "failed" and r.job.expect != "fail"]
+        # counterexamples: extracted inside the pool for FAILED harnesses (kani.run_jobs); a pinned known-finding
+        # harness has no symbolic draws, its input is replayed directly
+        pbs_by_jid = {}
+        for r in results:
+            if r.status == "failed" and r.job.expect == "known":
+                pbs_by_jid[r.job.jid] = [("assertion", "pinned known-finding input", r.job.meta.get("pinned_vals", []))]
+            elif r.status == "failed" and r.job.expect != "fail":
+                pbs_by_jid[r.job.jid] = r.playback if r.playback is not None else kani.extract_playback(r.job)
         for r in results:
             if r.job.expect == "known" and r.status == "successful":
                 self.notes.append(f"{r.job.jid}: the pinned known finding no longer fails - the entry in known_findings.json is stale")
-        pbs_by_jid = {}
-        if failed:
-            from concurrent.futures import ThreadPoolExecutor
-            with ThreadPoolExecutor(max_workers=min(8, len(failed))) as ex:
-                for r, pbs in zip(failed, ex.map(lambda r: kani.extract_playback(r.job), failed)):
-                    pbs_by_jid[r.job.jid] = pbs
         for res in results:
             job = res.job
             if job.expect == "fail":
